@@ -29,7 +29,7 @@ import itertools
 
 from .core import AnalysisError
 from .objmodel import ClassModel, new_parser_state
-from .opsem import INPUT, RELS, Oracle, program
+from .opsem import INPUT, RELS, Oracle, make_oracle, program
 from .ordabs import Ev, ModelRaise, Obj
 from .repo import Repo
 
@@ -82,7 +82,7 @@ class Table:
         self.rules = {name: cm.new("Rule", name, self.build(body), mod) for name, (mod, body) in spec.items()}
 
     def leaf(self, lid: str) -> Obj:
-        o = Oracle(lid, self.scripts.get(lid, ["S1"]), self.log)
+        o = make_oracle(lid, self.scripts.get(lid, ["S1"]), self.log)
         self.oracles[lid] = o
         node = Obj(("OracleExpr", "Expression"), tag=None)
         node.__dict__["parse"] = o
@@ -99,7 +99,7 @@ class Table:
         if kind == "ref":
             return cm.new("Identifier", b[1], b[2] if len(b) > 2 else None)
         if kind == "group":
-            return cm.new("Group", self.build(b[1]))
+            return cm.new("Group", self.build(b[1]), b[2] if len(b) > 2 else None)
         if kind == "seq":
             return cm.new("Sequence", *[self.build(x) for x in b[1:]])
         if kind == "choice":
@@ -174,7 +174,7 @@ def run_generated(cm: ClassModel, spec: dict, sources: dict[str, str], scripts: 
 
     for _, (_, body) in spec.items():
         for lid in leaf_ids(body):
-            leaves[lid] = Oracle(lid, scripts.get(lid, ["S1"]), log)
+            leaves[lid] = make_oracle(lid, scripts.get(lid, ["S1"]), log)
             env[f"LEAF_{lid}"] = leaves[lid]
 
     def late(name: str):  # noqa: ANN202
